@@ -122,6 +122,13 @@ func httpErrorFromResponse(statusCode int, contentType string, src *bytes.Buffer
 		stat.Code = int32(httpStatusCodeToRPC(statusCode)) //nolint:gosec
 		stat.Message = http.StatusText(statusCode)
 	}
+	if stat.GetCode() == 0 {
+		// A failure status with a body that claims OK (or says nothing): the HTTP status decides.
+		stat.Code = int32(httpStatusCodeToRPC(statusCode)) //nolint:gosec
+		if stat.GetMessage() == "" {
+			stat.Message = http.StatusText(statusCode)
+		}
+	}
 	connectErr := connect.NewWireError(
 		connect.Code(stat.GetCode()), //nolint:gosec // No information loss.
 		errors.New(stat.GetMessage()),
